@@ -310,6 +310,26 @@ def scrollWithChildren (oracle : Oracle) (st : St) (win : Id) (d r : Int) : Res 
   let w ← get st.tree win
   scroll oracle st win ⟨0, 0, w.rect.lines, w.rect.cols⟩ d r none false
 
+/-- The application's half of a `tickit_window_scroll_with_children`: "This is intended for scrolling a container of
+    windows, which will move all of the sub-windows too.  Note that this function does not actually move the child
+    windows, it simply requests a scrolling operation on the underlying terminal" (tickit_window_scroll.3) — every child
+    of the scrolled window gets `tickit_window_set_geometry` with its position moved by `(-downward, -rightward)`, the
+    way the terminal's cells moved; nothing is exposed. -/
+def moveChildren (d r : Int) : Tree → List Id → Res Tree
+  | t, [] => .ok t
+  | t, ch :: cs => do
+    let cw ← get t ch
+    let (t, _) ← setGeometry t ch { cw.rect with top := cw.rect.top - d, left := cw.rect.left - r }
+    moveChildren d r t cs
+
+/-- The compound step "scroll a container": `tickit_window_scroll_with_children`, then the application moves the
+    children by the same offsets (whatever the call returned). -/
+def scrollWithChildrenMoved (oracle : Oracle) (st : St) (win : Id) (d r : Int) : Res (St × Bool) := do
+  let (st', ret) ← scrollWithChildren oracle st win d r
+  let w ← get st'.tree win
+  let t ← moveChildren d r st'.tree w.children
+  pure ({ st' with tree := t }, ret)
+
 /-- `tickit_window_scrollrect`. -/
 def scrollRect (oracle : Oracle) (st : St) (win : Id) (rect : Rect) (d r : Int) (pen : Option Pen) : Res (St × Bool) :=
   scroll oracle st win rect d r pen true
